@@ -37,6 +37,7 @@ type frame struct {
 	fn        *ssa.Function
 	block     *ssa.BasicBlock
 	prevBlock *ssa.BasicBlock
+	selRetry  bool
 	env       map[ssa.Value]Value
 	locals    []Value
 	defers    *deferred
@@ -661,6 +662,14 @@ func (in *Interp) selectOp(fr *frame, instr *ssa.Select) Value {
 				break
 			}
 		}
+	}
+	if chosen < 0 && instr.Blocking && len(in.env.pending) > 0 && !fr.selRetry {
+		// nothing ready: let the other goroutines run, then look again
+		fr.selRetry = true
+		in.runPending()
+		v := in.selectOp(fr, instr)
+		fr.selRetry = false
+		return v
 	}
 	if chosen < 0 && instr.Blocking {
 		panic(pathEnd{EndBlocked, "select would block at " + in.posOf(instr)})
